@@ -105,6 +105,7 @@ func (p *pipe) closeRead(err error) error {
 	}
 	p.done = true
 	vs.Event("pipe.closeRead", unsafe.Pointer(p), false, true)
+	vs.After("pipe.CloseRead(done)", unsafe.Pointer(p))
 	return nil
 }
 
@@ -120,6 +121,7 @@ func (p *pipe) closeWrite(err error) error {
 	}
 	p.done = true
 	vs.Event("pipe.closeWrite", unsafe.Pointer(p), false, true)
+	vs.After("pipe.CloseWrite(done)", unsafe.Pointer(p))
 	return nil
 }
 
